@@ -215,10 +215,16 @@ def front_end_jobs(tier, harness):
                      {"space": "graphs of ByteFlow over compiled S2-ctl", "compounds<=": 1}))
         js.append(mk("source-derived-S2-ctl-c3-core-kinds-bare", lambda ch: s2.CtlGen(ch, 3, 2, 1, kinds=["if", "ifelse", "while"], trail="never"), 4, "source",
                      {"space": "graphs of AST2SCFG over S2-ctl", "compounds<=": 3, "kinds": ["if", "ifelse", "while"], "depth<=": 2, "terminators<=": 1, "marker after a compound": "never"}))
+        js.append(mk("source-derived-S2-ctl-c3-t2-if-while-bare", lambda ch: s2.CtlGen(ch, 3, 2, 2, kinds=["if", "while"], trail="never"), 4, "source",
+                     {"space": "graphs of AST2SCFG over S2-ctl", "compounds<=": 3, "kinds": ["if", "while"], "depth<=": 2, "terminators<=": 2, "marker after a compound": "never"}))
         js.append(mk("source-derived-S2-loop-in-branch-arm", lambda ch: s2.ArmLoopGen(ch), 3, "source",
                      {"space": "graphs of AST2SCFG over S2-armloop (a loop with guarded terminators that lives in / ends one arm of a branch)"}))
         js.append(mk("bytecode-derived-S2-loop-in-branch-arm", lambda ch: s2.ArmLoopGen(ch), 3, "bytecode",
                      {"space": "graphs of ByteFlow over compiled S2-armloop"}))
+        js.append(mk("source-derived-S2-multi-exit-loop-then-branching-code", lambda ch: s2.SeqLoopGen(ch), 3, "source",
+                     {"space": "graphs of AST2SCFG over S2-seqloop (a loop left in up to four ways, followed by code that branches again)"}))
+        js.append(mk("bytecode-derived-S2-multi-exit-loop-then-branching-code", lambda ch: s2.SeqLoopGen(ch), 3, "bytecode",
+                     {"space": "graphs of ByteFlow over compiled S2-seqloop"}))
     else:
         js.append(mk("source-derived-S2-ctl-c2-d3-t2", lambda ch: s2.CtlGen(ch, 2, 3, 2), 3, "source",
                      {"space": "graphs of AST2SCFG over S2-ctl", "compounds<=": 2, "depth<=": 3, "terminators<=": 2}, budget=1800))
@@ -230,6 +236,10 @@ def front_end_jobs(tier, harness):
                      {"space": "graphs of AST2SCFG over S2-armloop"}))
         js.append(mk("bytecode-derived-S2-loop-in-branch-arm", lambda ch: s2.ArmLoopGen(ch), 3, "bytecode",
                      {"space": "graphs of ByteFlow over compiled S2-armloop"}))
+        js.append(mk("source-derived-S2-multi-exit-loop-then-branching-code", lambda ch: s2.SeqLoopGen(ch), 3, "source",
+                     {"space": "graphs of AST2SCFG over S2-seqloop (a loop left in up to four ways, followed by code that branches again)"}))
+        js.append(mk("bytecode-derived-S2-multi-exit-loop-then-branching-code", lambda ch: s2.SeqLoopGen(ch), 3, "bytecode",
+                     {"space": "graphs of ByteFlow over compiled S2-seqloop"}))
         js.append(mk("source-derived-S2-expr-d2", lambda ch: s2.ExprGen(ch, 2), 3, "source",
                      {"space": "graphs of AST2SCFG over S2-expr", "depth<=": 2}, budget=1200))
         js.append(mk("bytecode-derived-S2-ctl-c2-d2-t1", lambda ch: s2.CtlGen(ch, 2, 2, 1), 3, "bytecode",
